@@ -352,7 +352,11 @@ def run_check(args):
         shown.add(base)
         print("  failed obligation: %s" % ob["name"])
         print("VIOLATION property=%s replay=%s%s" % (prop, path, "" if reproduced else " no-failing-input-found"))
-    if crashes:
+    # obligations refuted by the prover stand on their own: when the only checker problem is that the native
+    # cross-check ran out of time (many failing clauses, each with a concrete search, on a loaded machine) the verdict is
+    # the violation, not a checker error.  Without a violation a native cross-check that did not run stays an error.
+    hard = [c for c in crashes if not c.startswith("native cross-check did not run: native runner timed out")]
+    if hard or (crashes and not violations):
         return EXIT_CRASH
     if violations:
         return EXIT_VIOLATION
